@@ -223,7 +223,13 @@ def run(ctx):
                 replay = {"op": "refine", "shape": shape, "level": lv, "values": arr.ravel().tolist(), "trailing": trailing}
                 if odd:
                     ok = (not isinstance(out, Raised)) and not isinstance(integ(d, out), Raised) and np.array_equal(integ(d, out), i0)
-                    if not ok:
+                    first_level_odd = any(n % 2 for n in shape)
+                    if not ok and not first_level_odd:
+                        # a different mechanism: the code uses the ORIGINAL extent at every level (broadcast of a single entry at current
+                        # extent 3, ValueError at current extents 1 and 5, 7, ...)
+                        ctx.fail("C11:uniform_refinement(levels<-1):original extent used at deeper levels(odd intermediate extent)",
+                                 f"shape {shape}, levels {lv}: " + (repr(out) if isinstance(out, Raised) else f"integral {i0.tolist()} -> {np.asarray(integ(d, out)).tolist()}"), replay)
+                    elif not ok:
                         ctx.fail("C11:uniform_refinement(levels<0):odd extent along coarsened axis",
                                  f"shape {shape}, levels {lv}: " + (repr(out) if isinstance(out, Raised) else f"integral {i0.tolist()} -> {np.asarray(integ(d, out)).tolist()}"), replay)
                     continue
